@@ -358,7 +358,7 @@ Theorem assign_unit_blocks_refines (t : tb) (k : ckey) ps : wf_tb t -> t <> [] -
   res_map flatten (M_assign_unit_blocks is_slice sliceable newdt cells t (asc_key k (Z.of_nat (length (flatten t))))) =
   Ok (S_assign_from ps astep anew 0 0 (flatten t)).
 Proof.
-  intros Hwf Hne Hdom Hflag Ek. unfold M_assign_unit_blocks.
+  intros Hwf Hne Hdom Hflag Ek. unfold M_assign_unit_blocks, block_slices_for, Gen.Gen_c08.retain_key_order_assign_from_iloc_by_unit.
   destruct (block_slices_asc_runs t k ps Hwf Hdom Ek) as (ps' & Hinc & Hsame & Hrange & Ets).
   unfold block_slices_asc, ncols, tb_index in Ets. rewrite index_from_length in Ets. rewrite Ets.
   assert (Hsl : is_slice = true \/ forall rs r, In rs (block_runs t ps') -> In r rs -> snd r = 1%nat).
